@@ -24,7 +24,8 @@ import Bng.Model.KeySpec
     * Manager.AssignAddress (`setKey`) writes byIP[ip] = id and leaves the entry of a previous address behind;
     * Manager.TerminateSession is TWO critical sections with the allocator's ReleaseIPv4 between them, outside the lock:
       `tpark` is the first (the session is marked terminating and stays in every map; a further TerminateSession of it
-      answers "already terminating" = `busy`), `tresume` the second (= `delete` on the record as it is then); every
+      answers "already terminating" = `busy`, an AssignAddress for it hands the address back and answers `gone`),
+      `tresume` the second (= `delete` on the record as it is then); every
       other operation may run in between.  A session without an address has nothing to release: its `tpark` runs
       both sections;
     * state.Store hands out and keeps POINTERS: every Get* returns the stored record itself, and Create*/Update* of
@@ -216,6 +217,9 @@ inductive Obs where
   | busy
   /-- `tresume` of a session that is not parked -/
   | noref
+  /-- Manager.AssignAddress on a session that is being terminated: "session terminated during address assignment"
+      (fix 9d53e2c: the address is handed back, no map is touched) -/
+  | gone
   | found (id : Nat) (r : Rec)
   | ids (l : List Nat)
   | badop
@@ -333,7 +337,7 @@ def step (c : Cfg) (st : State) (op : Op) : State × Obs :=
   match op with
   | .create id k0 k1 => create c st id k0 k1
   | .update id k0 k1 => update c st id k0 k1
-  | .setKey id slot v => setKey st id slot v
+  | .setKey id slot v => if id ∈ st.term then (st, .gone) else setKey st id slot v
   | .delete id => if id ∈ st.term then (st, .busy) else delete c st id
   | .tpark id => tpark c st id
   | .tresume id => tresume c st id
